@@ -45,9 +45,26 @@ def judge(doc, wrapper: str):
             fails = check_sequence(exp_text, text)
             fails += [("table-" + c, d) for c, d in check_sequence(table_toks, tab_text)]
             return fails
+        elif wrapper == "epub-2ch":
+            # a book of two chapters: the first ends inside a removable element that is never closed (a chapter cut short, a stray <iframe>);
+            # what a chapter leaves open must not reach into the next one
+            if not feats["xml_ok"]:
+                return None
+            tails = ['<iframe src="about:blank">', '<script type="text/javascript">var a = 1;', "<noscript>", '<object data="movie.swf">', "<style>p { color: red }", ""]
+            tail = tails[sum(map(ord, digest(doc))) % len(tails)]
+            ch1 = htmlgen.render(doc, xhtml=True)
+            i = ch1.rfind("</body>")
+            ch1 = ch1[:i] + tail + ch1[i:]
+            ch2 = '<?xml version="1.0" encoding="utf-8"?>\n<html xmlns="http://www.w3.org/1999/xhtml"><head><title>two</title></head><body><p>ZB09900 second chapter</p></body></html>'
+            res = extract_html(wrappers.epub_bytes([("ch1.xhtml", ch1), ("ch2.xhtml", ch2)]), "epub")
+            text = res[0].get_full_text()
+            exp_text = [t for t in toks if t not in set(table_toks)] + ["ZB09900"]
+            return check_sequence(exp_text, text)
         elif wrapper == "msgbody":
-            from sharepoint2text.parsing.extractors.mail.msg_email_extractor import _html_to_text
-            text = _html_to_text(htmlgen.render(doc))
+            from sharepoint2text.parsing.extractors.mail.msg_email_extractor import _html_to_text, _looks_like_html
+            raw = htmlgen.render(doc)
+            # the call site converts a body only when it recognises it as HTML; a body that has an <html> element is HTML whatever precedes it
+            text = _html_to_text(raw) if (doc.get("shell", "full") not in ("full", "office") or _looks_like_html(raw)) else raw
         else:
             raise ValueError(wrapper)
     except Exception as e:  # noqa
@@ -55,7 +72,7 @@ def judge(doc, wrapper: str):
     return check_sequence(toks, text)
 
 
-WRAPPERS = ["html", "mhtml-qp", "mhtml-b64", "mhtml-8bit", "epub", "msgbody"]
+WRAPPERS = ["html", "mhtml-qp", "mhtml-b64", "mhtml-8bit", "epub", "epub-2ch", "msgbody"]
 
 
 def evaluate(ctx: Ctx, doc, part: Partial | None = None, wrappers_=WRAPPERS):
@@ -74,8 +91,8 @@ def evaluate(ctx: Ctx, doc, part: Partial | None = None, wrappers_=WRAPPERS):
             for t in feats["rem_tags"]:
                 part.hist[f"rem={t}"] += 1
         for c, d in fails[:1]:
-            group = "html-family" if w != "epub" else "epub"
-            out.append(Violation(c, f"C17:{group}:{c}", f"[{w}] {d}\n  html={htmlgen.render(doc, xhtml=(w == 'epub'))[:1500]!r}", {"kind": "model", "model": doc, "wrapper": w}))
+            group = "html-family" if not w.startswith("epub") else "epub"
+            out.append(Violation(c, f"C17:{group}:{c}", f"[{w}] {d}\n  html={htmlgen.render(doc, xhtml=w.startswith('epub'))[:1500]!r}", {"kind": "model", "model": doc, "wrapper": w}))
         if out:
             break
     return out
